@@ -192,7 +192,7 @@ def run_one(params: dict, chooser, deviations=True) -> dict:
     ERRORS.records.clear()
     kind = params['kind']
     horizon = {'out': 90.0, 'in': 140.0, 'server': 700.0, 'netdisc': 90.0}[kind]
-    world = World(chooser=chooser, horizon=horizon, deviations=False)
+    world = World(chooser=chooser, horizon=horizon, deviations=False, slowcpu=True)
     try:
         net = SimNet(world, losable=False)
         install_virtual_time(world)
